@@ -1214,3 +1214,28 @@ def arrays_equal(A, B):
     if A.shape != B.shape:
         return z3.BoolVal(False)
     return zand(*[zeq(A[i], B[i]) for i in np.ndindex(A.shape)])
+
+
+def cabs2(e):
+    """|e|^2 as a z3 real for Polar / PSum / SComplex / SNum / python numbers"""
+    if isinstance(e, Polar):
+        return e.amp * e.amp
+    if isinstance(e, PSum):
+        e = e.cartesian()
+    if isinstance(e, SComplex):
+        return _real(e.re.e) * _real(e.re.e) + _real(e.im.e) * _real(e.im.e)
+    if isinstance(e, complex):
+        return z3.RealVal(fractions.Fraction(e.real)) ** 2 + z3.RealVal(fractions.Fraction(e.imag)) ** 2
+    x = _real(_z(e))
+    return x * x
+
+
+def phasor_turns_eq(e, want):
+    """e is a unit phasor exp(2 pi i want); a value that is not in polar form cannot be compared and fails (the replay decides)"""
+    if isinstance(e, Polar):
+        return z3.And(e.amp == 1, turns_mod1_eq(e.tau, want))
+    return z3.BoolVal(False)
+
+
+def tau_of(e):
+    return e.tau if isinstance(e, Polar) else None
